@@ -331,6 +331,9 @@ pub fn directed() -> Vec<(&'static str, Vec<&'static str>)> {
         ("retained-function", vec!["functie f() { 7 }", "f()"]),
         ("retained-function-var", vec!["stel dubbel = functie(x) { x * 2 }", "dubbel(21)", "dubbel(dubbel(1))"]),
         ("heap-global-array", vec!["stel a = [1.5, \"tekst\", [2]]", "a", "a[1]", "functie g() { 1 } g(); a"]),
+        ("heap-stored-into-echoed-array", vec!["stel namen = [\"piet\", \"klaas\"]", "namen", "stel f = functie(x) { x + 1 }", "namen[0] = \"marie\"; 0", "f(1)", "namen", "f(2)", "stel ander = \"zomaar iets\"", "namen"]),
+        ("heap-nested-stored-later", vec!["stel m = [[1.5], \"x\"]", "m", "m[1] = [2.5, \"nieuw\"]; 0", "functie g() { [3.5] }; g(); g()", "m", "g()", "m[1]"]),
+        ("heap-global-overwritten", vec!["stel a = [1.5, \"een\"]", "a = [2.5, \"twee\"]", "functie g() { 0 }; g()", "a", "stel a = \"drie\"", "g()", "a"]),
         ("heap-global-string", vec!["stel s = \"hallo\"", "s[0] = \"j\"", "s"]),
         ("heap-global-float", vec!["stel x = 1.5", "x * 2.0", "x"]),
         ("string-constant-reuse", vec!["\"abc\"", "\"abc\"", "stel t = \"abc\"; t"]),
@@ -371,7 +374,7 @@ fn random_session(r: &mut Rng) -> Vec<Line> {
                 ints[r.below(ints.len() as u64) as usize].clone()
             }
         };
-        let k = r.below(21);
+        let k = r.below(27);
         let text = match k {
             0 | 1 => {
                 fresh += 1;
@@ -433,6 +436,23 @@ fn random_session(r: &mut Rng) -> Vec<Line> {
                 None => format!("{} + 1", pick_int(r, &ints)),
             },
             19 => format!("stel v{} = 5; stop", fresh),
+            // heap values across lines: echo a global array (its result is handed out), store fresh heap values
+            // into it, make the collector run, read it again
+            21 if !arrs.is_empty() => arrs[r.below(arrs.len() as u64) as usize].clone(),
+            22 if !arrs.is_empty() => format!("{}[{}] = \"tekst{}\"; 0", arrs[r.below(arrs.len() as u64) as usize], r.range(0, 3), fresh),
+            23 if !arrs.is_empty() => format!("{}[{}] = [{}.5, \"in\"]; 0", arrs[r.below(arrs.len() as u64) as usize], r.range(0, 3), r.range(0, 9)),
+            24 => format!("functie g{}(x) {{ stel t = [x, \"tijdelijk\"]; x + 1 }}; g{}({})", fresh, fresh, r.range(0, 9)),
+            25 if !arrs.is_empty() => {
+                let a = &arrs[r.below(arrs.len() as u64) as usize];
+                format!("[{}, lengte({}), {}[0]]", a, a, a)
+            }
+            26 => {
+                fresh += 1;
+                let name = format!("l{}", fresh);
+                let t = format!("stel {} = [\"a{}\", {}.25, [\"diep\"], 0]", name, fresh, r.range(0, 9));
+                arrs.push(name);
+                t
+            }
             20 => "stel teller = 0; zolang teller < 2 { teller += 1; als teller > 5 { stel q = [ } }".to_string(),
             _ => format!("{} + 1", pick_int(r, &ints)),
         };
